@@ -27,10 +27,14 @@ pub fn run(ctx: &mut Ctx) {
         let mut s = Case::new("streaming");
         if i % 2 == 0 {
             // ---- encode
-            let n_o = if valid { k } else { ctx.rng.below(k + 3) };
+            // invalid tuples: a third of them are well-formed except for the shard size (exactly k shards of
+            // one odd / zero length), the rest have any number of shards
+            let only_size = !valid && ctx.rng.chance(1, 3);
+            let sb = if only_size { *ctx.rng.pick(&[0usize, 1, 3, 5, 7, 63, 65]) } else { sb };
+            let n_o = if valid || only_size { k } else { ctx.rng.below(k + 3) };
             let shards: Vec<Vec<u8>> = (0..n_o)
                 .map(|_| {
-                    let l = if !valid && ctx.rng.chance(1, 6) { *ctx.rng.pick(&[0usize, 2, 4, 5]) } else { sb };
+                    let l = if !valid && !only_size && ctx.rng.chance(1, 6) { *ctx.rng.pick(&[0usize, 2, 4, 5]) } else { sb };
                     ctx.rng.bytes(l)
                 })
                 .collect();
